@@ -57,6 +57,18 @@ ATOMS: dict[str, tuple[str, tuple]] = {
     "a_sl_m2_m1": ("PEEK[-2..-1]", ("slice", -2, -1)),
     "a_sl_0_2": ("PEEK[0..2]", ("slice", 0, 2)),
     "a_sl_1_2": ("PEEK[1..2]", ("slice", 1, 2)),
+    "a_sl__0": ("PEEK[..0]", ("slice", None, 0)),
+    "a_sl_0_0": ("PEEK[0..0]", ("slice", 0, 0)),
+    "a_sl_m1_0": ("PEEK[-1..0]", ("slice", -1, 0)),
+    "a_sl_2_": ("PEEK[2..]", ("slice", 2, None)),
+    "a_sl__2": ("PEEK[..2]", ("slice", None, 2)),
+    "a_sl__m2": ("PEEK[..-2]", ("slice", None, -2)),
+    "a_sl_m2_": ("PEEK[-2..]", ("slice", -2, None)),
+    # idioms whose exact transition follows from PEEK's clause and the definition of ! ~ * ANY
+    # (the surround.pest idiom "read up to the pushed delimiter"; the optimizer rewrites it)
+    "i_until_peek": ("(!PEEK ~ ANY)*", ("until", ())),
+    "i_until_peek_b": ('(!(PEEK | "b") ~ ANY)*', ("until", ("b",))),
+    "i_until_b_peek": ('(!("b" | PEEK) ~ ANY)*', ("until", ("b",))),
     "l_a": ('"a"', ("lit", "a")),
     "l_b": ('"b"', ("lit", "b")),
     "l_ab": ('"ab"', ("lit", "ab")),
@@ -73,6 +85,7 @@ KIND = {
     "pop_all": "POP_ALL",
     "slice": "PEEK_SLICE",
     "lit": "LITERAL",
+    "until": "PEEK_IDIOM",
 }
 
 
@@ -139,6 +152,14 @@ def spec_apply(spec, text: str, pos: int, stack: list[str]):
         if text.startswith(s, pos):
             return True, pos + len(s), ([] if k == "pop_all" else stack), True
         return False, pos, stack, True
+    if k == "until":
+        # (!(PEEK | lits) ~ ANY)*: stop at the first offset where the top entry (if any) or
+        # one of the literals starts; an empty-string top matches at once; else run to the end
+        stops = list(spec[1]) + ([stack[-1]] if stack else [])
+        e = pos
+        while e < len(text) and not any(text.startswith(x, e) for x in stops):
+            e += 1
+        return True, e, stack, True
     if k == "slice":
         rng = slice_in_range(spec[1], spec[2], len(stack))
         if rng is None:
@@ -162,10 +183,13 @@ def spec_apply(spec, text: str, pos: int, stack: list[str]):
 
 def gen_toolbox(rng: random.Random) -> dict:
     """6-14 composite rules. About two thirds are in *normal form*: one operator whose
-    operands are rule references (atoms or earlier composites) -- these are the ones the
-    structural oracle O4 can judge exactly; nesting depth comes from rule nesting.  The
-    rest are inline random expressions (depth <= 3) that serve as operands and exercise
-    O1-O3 in nested inline contexts."""
+    operands are rule references, sequences of rule references or bounded repetitions of a
+    rule reference -- the shapes whose operand results the structural oracle O4 can read off
+    the implementation's own call tree.  The rest are inline random expressions (depth <= 3)
+    that serve as operands and exercise O1-O3 in nested inline contexts.  A leaf is a named
+    rule (tapped) or, in a quarter of the toolboxes' leaves, the stack operation written
+    INLINE (`&POP`, `DROP?`, `(PUSH("a") | POP_ALL)`): terminals directly under an operator.
+    40 % of the toolboxes define implicit WHITESPACE and/or COMMENT."""
     n_rules = rng.randint(6, 14)
     atom_w = {n: 1.0 for n in ATOMS}
     for n in ("a_pop", "a_peek", "a_drop", "a_push_a", "a_push_ab", "a_pop_all", "a_peek_all"):
@@ -177,17 +201,28 @@ def gen_toolbox(rng: random.Random) -> dict:
     use_rep = rng.random() < 0.5
     use_pushx = rng.random() < 0.6
     p_nf = rng.choice((0.5, 0.7, 0.9))
+    p_inl = rng.choice((0.0, 0.15, 0.3, 0.5))
+    trivia = rng.choices((None, "ws", "comment", "both", "ws_nonsilent"), (60, 12, 12, 10, 6))[0]
 
     rules: dict[str, dict] = {}
     consuming: set[str] = set(LITERALS)  # rules that consume >= 1 char whenever they succeed
 
     def atom():
-        return ["ref", rng.choices(names, weights)[0]]
+        a = rng.choices(names, weights)[0]
+        if a in INLINE_OK and rng.random() < p_inl:
+            return ["inl", a]
+        return ["ref", a]
 
     def ref(prefer_comp=0.5):
         if rules and rng.random() < prefer_comp:
             return ["call", rng.choice(list(rules))]
         return atom()
+
+    def nref(prefer_comp=0.5):
+        # a NAMED leaf (tapped, observable)
+        if rules and rng.random() < prefer_comp:
+            return ["call", rng.choice(list(rules))]
+        return ["ref", rng.choices(names, weights)[0]]
 
     def progress_ref():
         # operand of * + {..}: every successful evaluation consumes input or strictly
@@ -195,15 +230,25 @@ def gen_toolbox(rng: random.Random) -> dict:
         cands = [["call", r] for r in rules if r in consuming]
         if cands and rng.random() < 0.6:
             return rng.choice(cands)
-        return ["ref", rng.choice(LITERALS + ("a_pop", "a_drop"))]
+        return [rng.choice(("ref", "ref", "inl")) if p_inl else "ref", rng.choice(LITERALS + ("a_pop", "a_drop"))]
+
+    def progress_seq():
+        items = [["ref", rng.choice(LITERALS)]] + [nref() for _ in range(rng.randint(1, 2))]
+        return ["seq", items]
 
     def progress_body(depth):
         if rng.random() < 0.3:
-            return ["ref", rng.choice(("a_pop", "a_drop"))]
+            return [rng.choice(("ref", "inl")) if p_inl else "ref", rng.choice(("a_pop", "a_drop"))]
         items = [["ref", rng.choice(LITERALS)]]
         for _ in range(rng.randint(0, 2)):
             items.append(expr(depth - 1))
         return ["seq", items] if len(items) > 1 else items[0]
+
+    def bounded(body):
+        rk = rng.choice(("exact", "min", "max", "minmax"))
+        m = rng.randint(1, 2)
+        n = m + rng.randint(1, 2)
+        return ["rep", body, rk, m, n]
 
     def expr(depth):
         if depth <= 0 or rng.random() < 0.25:
@@ -225,14 +270,25 @@ def gen_toolbox(rng: random.Random) -> dict:
             return [k, progress_body(depth)]
         if k == "pushx":
             return ["pushx", expr(depth - 1)]
-        rk = rng.choice(("exact", "min", "max", "minmax"))
-        m = rng.randint(1, 2)
-        n = m + rng.randint(1, 2)
-        return ["rep", progress_body(depth), rk, m, n]
+        return bounded(progress_body(depth))
+
+    def operand():
+        # what the structural oracle can judge: a named leaf, a sequence of named leaves, a
+        # bounded repetition of a progressing named leaf -- or (unjudged, for O1-O3 and the
+        # predicate clause) an inline terminal
+        r = rng.random()
+        if r < 0.55:
+            return ref()
+        if r < 0.85:
+            return ["seq", [nref() for _ in range(rng.randint(2, 3))]]
+        if use_rep:
+            pr = progress_ref()
+            return bounded(pr if pr[0] != "inl" else ["ref", pr[1]])
+        return ref()
 
     def normal_form():
         kinds = ["seq", "alt", "opt", "star", "plus", "and", "not"]
-        w = [4, 3, 3, 1.5, 1, 2, 2]
+        w = [3, 3, 3, 1.5, 1, 2, 2]
         if use_rep:
             kinds.append("rep")
             w.append(1.5)
@@ -240,20 +296,21 @@ def gen_toolbox(rng: random.Random) -> dict:
             kinds.append("pushx")
             w.append(1)
         k = rng.choices(kinds, w)[0]
-        if k in ("seq", "alt"):
+        if k == "seq":
             return [k, [ref() for _ in range(rng.randint(2, 3))]]
-        if k in ("opt", "and", "not", "pushx"):
+        if k == "alt":
+            return [k, [operand() for _ in range(rng.randint(2, 3))]]
+        if k in ("opt", "and", "not"):
+            return [k, operand()]
+        if k == "pushx":
             return [k, ref(0.7)]
         if k in ("star", "plus"):
-            return [k, progress_ref()]
-        rk = rng.choice(("exact", "min", "max", "minmax"))
-        m = rng.randint(1, 2)
-        n = m + rng.randint(1, 2)
-        return ["rep", progress_ref(), rk, m, n]
+            return [k, progress_seq() if rng.random() < 0.35 else progress_ref()]
+        return bounded(progress_ref())
 
     def is_consuming(e):
         k = e[0]
-        if k in ("ref", "call"):
+        if k in ("ref", "call", "inl"):
             return e[1] in consuming
         if k == "seq":
             return any(is_consuming(x) for x in e[1])
@@ -272,52 +329,130 @@ def gen_toolbox(rng: random.Random) -> dict:
         rules[name] = {"mod": mod, "ast": e}
         if is_consuming(e):
             consuming.add(name)
-    return {"rules": rules}
+    return {"rules": rules, "trivia": trivia}
+
+
+def operand_shape(o):
+    """('ref', name) | ('seq', [names]) | ('rep', name, min) | None (not observable)."""
+    if o[0] in ("ref", "call"):
+        return ("ref", o[1])
+    if o[0] == "seq" and all(x[0] in ("ref", "call") for x in o[1]):
+        return ("seq", [x[1] for x in o[1]])
+    if o[0] == "rep" and o[1][0] in ("ref", "call"):
+        lo = {"exact": o[3], "min": o[3], "max": 0, "minmax": o[3]}[o[2]]
+        hi = {"exact": o[3], "min": None, "max": o[4], "minmax": o[4]}[o[2]]
+        return ("rep", o[1][1], lo, hi)
+    return None
 
 
 def operands(ast):
-    """Rule names of the operands if `ast` is in normal form, else None."""
+    """Operand shapes if `ast` is in normal form (every operand observable), else None."""
     k = ast[0]
     if k in ("seq", "alt"):
         ops = ast[1]
-    elif k in ("opt", "star", "plus", "and", "not", "pushx", "rep"):
+    elif k in ("opt", "star", "plus", "and", "not", "pushx"):
+        ops = [ast[1]]
+    elif k == "rep":
         ops = [ast[1]]
     else:
         return None
-    if all(o[0] in ("ref", "call") for o in ops):
-        return [o[1] for o in ops]
-    return None
+    shapes = [operand_shape(o) for o in ops]
+    if any(sh is None for sh in shapes):
+        return None
+    if k in ("seq", "pushx", "rep") and any(sh[0] != "ref" for sh in shapes):
+        return None
+    return shapes
+
+
+def consume_operand(shape, ch, i):
+    """Read one evaluation of an operand off the child-call list, starting at index i.
+
+    Returns (next index, result, stack entries when the evaluation started) where result is
+    True / False / None (cannot be told from what the implementation reported), or None if
+    the children do not fit the shape at all.  Only definitional deductions are made: a
+    sequence one of whose elements returned False failed; a repetition with fewer successful
+    iterations than its minimum failed."""
+    if i >= len(ch):
+        return None
+    if shape[0] == "ref":
+        c = ch[i]
+        if c["rule"] != shape[1]:
+            return None
+        return i + 1, bool(c["res"]), c["pre"]
+    if shape[0] == "seq":
+        start = ch[i]["pre"]
+        for name in shape[1]:
+            if i >= len(ch) or ch[i]["rule"] != name:
+                return None
+            ok = ch[i]["res"]
+            i += 1
+            if not ok:
+                return i, False, start
+        return i, True, start
+    # bounded repetition of one named rule
+    _, name, lo, hi = shape
+    start = ch[i]["pre"]
+    if ch[i]["rule"] != name:
+        return None
+    good = 0
+    while i < len(ch) and ch[i]["rule"] == name:
+        ok = ch[i]["res"]
+        i += 1
+        if not ok:
+            break
+        good += 1
+        if hi is not None and good >= hi:
+            break
+    return i, (False if good < lo else None), start
+
+
+INLINE_OK = tuple(n for n in ATOMS if not n.startswith("i_") and n not in ("a_push_c", "a_push_p"))
+
+
+def render_operand(e) -> str:
+    """Operand of a postfix/prefix operator: a leaf is written bare (so that `&POP`, `POP?`
+    really put the terminal directly under the operator), anything else is parenthesised."""
+    if e[0] in ("ref", "call", "inl"):
+        return render_expr(e)
+    r = render_expr(e)
+    return r if r.startswith("(") and r.endswith(")") and e[0] in ("seq", "alt") else "(" + r + ")"
 
 
 def render_expr(e) -> str:
     k = e[0]
     if k in ("ref", "call"):
         return e[1]
+    if k == "inl":
+        return ATOMS[e[1]][0]  # the stack operation / literal written inline, no rule around it
     if k == "seq":
         return "(" + " ~ ".join(render_expr(x) for x in e[1]) + ")"
     if k == "alt":
         return "(" + " | ".join(render_expr(x) for x in e[1]) + ")"
     if k == "opt":
-        return "(" + render_expr(e[1]) + ")?"
+        return render_operand(e[1]) + "?"
     if k == "star":
-        return "(" + render_expr(e[1]) + ")*"
+        return render_operand(e[1]) + "*"
     if k == "plus":
-        return "(" + render_expr(e[1]) + ")+"
+        return render_operand(e[1]) + "+"
     if k == "and":
-        return "(&(" + render_expr(e[1]) + "))"
+        return "(&" + render_operand(e[1]) + ")"
     if k == "not":
-        return "(!(" + render_expr(e[1]) + "))"
+        return "(!" + render_operand(e[1]) + ")"
     if k == "pushx":
         return "PUSH(" + render_expr(e[1]) + ")"
     if k == "rep":
         _, body, rk, m, n = e
         suffix = {"exact": f"{{{m}}}", "min": f"{{{m},}}", "max": f"{{,{n}}}", "minmax": f"{{{m},{n}}}"}[rk]
-        return "(" + render_expr(body) + ")" + suffix
+        return render_operand(body) + suffix
     raise ValueError(e)
 
 
+TRIVIA_RULES = {"ws": ['WHITESPACE = _{ " " }'], "comment": ['COMMENT = _{ "#" }'], "both": ['WHITESPACE = _{ " " }', 'COMMENT = _{ "#" }'], "ws_nonsilent": ['WHITESPACE = { " " }']}
+
+
 def render_grammar(tb: dict) -> str:
-    lines = [f"{name} = {{ {src} }}" for name, (src, _) in ATOMS.items()]
+    lines = list(TRIVIA_RULES.get(tb.get("trivia") or "", []))
+    lines += [f"{name} = {{ {src} }}" for name, (src, _) in ATOMS.items()]
     for name, r in tb["rules"].items():
         lines.append(f"{name} = {r['mod']}{{ {render_expr(r['ast'])} }}")
     return "\n".join(lines) + "\n"
@@ -519,8 +654,12 @@ def impl_of(mode_name: str) -> str:
 # ================================================================= executing a history
 
 
-def check_event_O1(ev, text):
-    """Exact primitive transition (trusts nothing but str.startswith / slicing)."""
+def check_event_O1(ev, text, trivia=None):
+    """Exact primitive transition (trusts nothing but str.startswith / slicing).
+
+    With implicit trivia defined, what PEEK_ALL / POP_ALL and the PEEK idioms consume between
+    entries / iterations is not specified by the statement: only their unconditional clauses
+    (a failure changes nothing, nothing raises, PEEK_ALL never changes the stack) are kept."""
     spec = ATOMS[ev["atom"]][1]
     kind = KIND[spec[0]]
     if ev["pre"] is None or ev["post"] is None:
@@ -543,6 +682,13 @@ def check_event_O1(ev, text):
             return (kind, "literal-changed-stack", d)
         return None
     exp_res, exp_pos, exp_stack, specified = spec_apply(spec, text, ev["pre_pos"], pre)
+    if trivia and spec[0] in ("peek_all", "pop_all", "until"):
+        specified = False
+        if res and spec[0] == "pop_all" and post:
+            return (kind, "wrong-stack-on-success", d)
+        if res and spec[0] != "pop_all" and (post != pre or post_ids != pre_ids):
+            return (kind, "wrong-stack-on-success", d)
+        return None
     if spec[0] == "push":
         # "PUSH(e) pushes exactly the text e matched": whatever e matched, that text
         if res:
@@ -581,31 +727,24 @@ def flatten_calls(calls, out=None):
 def check_structure_O4(rec, tb, text, stats):
     """The backtracking clause, judged on the implementation's own call tree.
 
-    For a composite rule in normal form the direct child calls ARE the operand
-    evaluations, with their results as the implementation itself computed them:
-      * an operand evaluation that returned False (a failed optional body, alternative or
-        repetition iteration) must have left the stack, at the next observation point
-        (the next operand call, or the return of the rule if the rule itself succeeded),
-        exactly as it was when that evaluation started;
-      * a predicate rule returns with exactly the stack it was entered with, whatever the
-        result;
-      * PUSH(x): when x matched and the rule succeeded, the stack is x's stack plus the
-        text between the rule's start and x's end.
-    If the observed children do not have the expected shape (an operand was inlined by the
+    * a rule whose body is a predicate returns with exactly the stack it was entered with,
+      whatever the result and whatever the operand (named, inline, nested);
+    * for a composite rule in normal form the direct child calls ARE the operand
+      evaluations (see consume_operand), with their results as the implementation itself
+      computed them: an operand evaluation that FAILED (a failed optional body, alternative
+      or repetition iteration) must have left the stack, at the next observation point (the
+      next child call, or the return of the rule if the rule itself succeeded), exactly as
+      it was when that evaluation started;
+    * PUSH(x): when x matched and the rule succeeded, the stack is x's stack plus the text
+      between the rule's start and x's end.
+    If the observed children do not fit the operand shapes (an operand was inlined by the
     optimizer, a mirror was lost) the node is skipped and counted.  Returns a violation
     tuple (where, clause, detail) or None."""
     name = rec["rule"]
     if name not in tb["rules"] or rec.get("post") is None or rec.get("pre") is None:
         return None
     ast = tb["rules"][name]["ast"]
-    ops = operands(ast)
-    if ops is None:
-        return None
     k = ast[0]
-    ch = rec["children"]
-    if any(c.get("pre") is None or c.get("post") is None or "res" not in c for c in ch):
-        stats["structure_skipped"] += 1
-        return None
 
     def texts(entries):
         return [t for _, t in entries]
@@ -615,43 +754,81 @@ def check_structure_O4(rec, tb, text, stats):
         if rec["post"] != rec["pre"]:
             return ("predicate", "predicate-changed-stack", {"rule": name, "body": render_expr(ast), "before": texts(rec["pre"]), "after": texts(rec["post"]), "result": rec["res"]})
         return None
-    if k == "seq":
+    shapes = operands(ast)
+    if shapes is None or k == "seq":
         return None
-    names = [c["rule"] for c in ch]
-    if k == "alt":
-        shape_ok = names == ops[: len(names)] and all(not c["res"] for c in ch[:-1]) and (not ch or ch[-1]["res"] or len(ch) == len(ops))
-    elif k in ("opt", "pushx"):
-        shape_ok = names == ops
-    else:  # star plus rep
-        shape_ok = bool(names) and all(n == ops[0] for n in names)
-    if not shape_ok:
+    ch = rec["children"]
+    if any(c.get("pre") is None or c.get("post") is None or "res" not in c for c in ch):
         stats["structure_skipped"] += 1
         return None
-    stats["structure_checked"] += 1
     if k == "pushx":
+        if len(ch) != 1 or ch[0]["rule"] != shapes[0][1]:
+            stats["structure_skipped"] += 1
+            return None
+        stats["structure_checked"] += 1
         x = ch[0]
-        if x["res"] and rec["res"]:
+        if x["res"] and rec["res"] and not tb.get("trivia"):
             want = texts(x["post"]) + [text[rec["pre_pos"] : x["post_pos"]]]
             if texts(rec["post"]) != want or [s for s, _ in rec["post"]][:-1] != [s for s, _ in x["post"]]:
                 return ("PUSH", "pushed-text-is-not-the-matched-text", {"rule": name, "body": render_expr(ast), "stack_after": texts(rec["post"]), "expected": want})
         return None
+    # ---- read the operand evaluations off the child list
+    evals = []  # (result, start entries, index of the first child after the evaluation)
+    i = 0
+    if k == "alt":
+        for sh in shapes:
+            if i >= len(ch):
+                break
+            r = consume_operand(sh, ch, i)
+            if r is None:
+                stats["structure_skipped"] += 1
+                return None
+            i, res, start = r
+            evals.append((res, start, i))
+            if res is not False:
+                break
+    elif k == "opt":
+        r = consume_operand(shapes[0], ch, 0) if ch else None
+        if r is None:
+            stats["structure_skipped"] += 1
+            return None
+        i, res, start = r
+        evals.append((res, start, i))
+    else:  # star plus rep: iterations of one operand
+        while i < len(ch):
+            r = consume_operand(shapes[0], ch, i)
+            if r is None:
+                stats["structure_skipped"] += 1
+                return None
+            i, res, start = r
+            evals.append((res, start, i))
+    if i != len(ch):
+        stats["structure_skipped"] += 1
+        return None
+    if k == "alt" and rec["res"] and all(r is False for r, _, _ in evals):
+        # the rule succeeded although every alternative we saw failed: the alternative that
+        # matched left no call record (a silent rule inlined by the optimizer), so the
+        # rule's return is not an observation point for the ones before it
+        stats["structure_skipped"] += 1
+        return None
+    stats["structure_checked"] += 1
     construct = {"alt": "alternative", "opt": "optional"}.get(k, "repetition-iteration")
-    for i, c in enumerate(ch):
-        if c["res"]:
+    for res, start, nxt_i in evals:
+        if res is not False:
             continue
-        if i + 1 < len(ch):
-            nxt = ch[i + 1]["pre"]
+        if nxt_i < len(ch):
+            nxt, where = ch[nxt_i]["pre"], "next operand"
         elif rec["res"]:
-            nxt = rec["post"]
+            nxt, where = rec["post"], "rule return"
         else:
             # the rule as a whole failed after this operand: whatever encloses the rule rolls
             # back further, the stack at the rule's return is not an observation point
             continue
         stats["failed_operands_checked"] += 1
-        if c["post"] != c["pre"]:
+        if ch[nxt_i - 1]["post"] != start:
             stats["probe_failed_operand_had_changed_stack"] += 1
-        if nxt != c["pre"]:
-            return ("operator", f"stack-changes-kept-after-failed-{construct}", {"rule": name, "body": render_expr(ast), "failed_operand": c["rule"], "stack_when_it_started": texts(c["pre"]), "stack_at_next_observation": texts(nxt), "observed_at": "next operand" if i + 1 < len(ch) else "rule return"})
+        if nxt != start:
+            return ("operator", f"stack-changes-kept-after-failed-{construct}", {"rule": name, "body": render_expr(ast), "stack_when_it_started": texts(start), "stack_at_next_observation": texts(nxt), "observed_at": where})
     return None
 
 
@@ -718,7 +895,7 @@ class HistoryRunner:
                                     stats["probe_all_failed_midway"] += 1
                             if not rec["pre"]:
                                 stats["probe_op_on_empty_stack"] += 1
-                        bad = check_event_O1({"atom": rec["rule"], **rec}, text)
+                        bad = check_event_O1({"atom": rec["rule"], **rec}, text, self.tb.get("trivia"))
                         if bad:
                             return (impl, bad[0], bad[1], si, bad[2])
                     else:
@@ -773,6 +950,15 @@ def gen_history(rng: random.Random, tb: dict):
         text = "".join(rng.choice(("a", "b", "ab", "ab", "aa", "ba")) for _ in range(max(1, tl // 2)))
     else:
         text = rng.choice(("a", "b", "ab")) * max(1, tl // 2)
+    if tb.get("trivia") and text:
+        # sprinkle implicit-trivia characters
+        chars = {"ws": " ", "ws_nonsilent": " ", "comment": "#", "both": " #"}[tb["trivia"]]
+        out = []
+        for ch in text:
+            out.append(ch)
+            if rng.random() < 0.3:
+                out.append(rng.choice(chars))
+        text = "".join(out)
     comps = list(tb["rules"])
     atoms = list(ATOMS)
     w_comp = rng.choice((0.3, 0.6, 0.8))
@@ -1072,7 +1258,7 @@ def shrink_ast(e):
 
 
 def _progress(e):
-    if e[0] == "ref":
+    if e[0] in ("ref", "inl"):
         return e[1] in LITERALS or e[1] in ("a_pop", "a_drop")
     if e[0] == "seq":
         return e[1][0][0] == "ref" and e[1][0][1] in LITERALS
@@ -1130,7 +1316,7 @@ class Check:
         # 0. prune rules that no step can reach
         keep = reachable(tb, steps)
         if len(keep) < len(tb["rules"]):
-            yield {**plan, "toolbox": {"rules": {k: v for k, v in tb["rules"].items() if k in keep}}}
+            yield {**plan, "toolbox": {**tb, "rules": {k: v for k, v in tb["rules"].items() if k in keep}}}
         # 1. ddmin over steps
         n = len(steps)
         chunk = max(1, n // 2)
@@ -1152,9 +1338,11 @@ class Check:
         for name in sorted(keep):
             r = tb["rules"][name]
             for s in shrink_ast(r["ast"]):
-                yield {**plan, "toolbox": {"rules": {**tb["rules"], name: {**r, "ast": s}}}}
+                yield {**plan, "toolbox": {**tb, "rules": {**tb["rules"], name: {**r, "ast": s}}}}
             if r["mod"]:
-                yield {**plan, "toolbox": {"rules": {**tb["rules"], name: {**r, "mod": ""}}}}
+                yield {**plan, "toolbox": {**tb, "rules": {**tb["rules"], name: {**r, "mod": ""}}}}
+        if tb.get("trivia"):
+            yield {**plan, "toolbox": {**tb, "trivia": None}, "text": text.replace(" ", "").replace("#", "")}
         # 4. simpler arguments
         for i, s in enumerate(steps):
             if s[0] == "seek" and s[1] > 0:
@@ -1167,7 +1355,8 @@ class Check:
         atoms = sorted({s[1] for s in plan["steps"] if s[0] == "call" and s[1] in ATOMS})
         atoms_s = "; ".join(f"{a} = {{ {ATOMS[a][0]} }}" for a in atoms)
         steps = ", ".join(" ".join(map(str, s)) for s in plan["steps"])
-        return f"mode={plan.get('mode')} text={plan['text']!r} steps=[{steps}] rules: {rules} {atoms_s}"
+        tr = f" trivia={tb.get('trivia')}" if tb.get("trivia") else ""
+        return f"mode={plan.get('mode')}{tr} text={plan['text']!r} steps=[{steps}] rules: {rules} {atoms_s}"
 
     def assumptions(self):
         return [
